@@ -8,7 +8,7 @@ Used for agent/discovery.c priv_discovery_tick_unlocked (property C20: completio
 discovery item is done)."""
 import re
 
-COUNTERS = {"not_done", "need_pacing"}
+COUNTERS = {"not_done": "not_done", "need_pacing": "need_pacing"}   # C name -> Lean field (roles found structurally)
 ITEM_VAR = "cand"
 ITEM_FIELDS = {("pending",): "pending", ("done",): "done", ("stun_message", "buffer"): "hasMsg"}
 NORETURN = {"g_assertion_message_expr", "g_assertion_message", "abort", "g_assert_warning", "g_error"}
@@ -70,7 +70,7 @@ def tracked_atom(e):
     """('counter', name) | ('field', leanfield) | None"""
     e = strip(e)
     if e.get("kind") == "DeclRefExpr" and e["referencedDecl"]["name"] in COUNTERS:
-        return ("counter", e["referencedDecl"]["name"])
+        return ("counter", COUNTERS[e["referencedDecl"]["name"]])
     path = []
     cur = e
     while cur.get("kind") == "MemberExpr":
@@ -354,6 +354,35 @@ def translate_tick(fdecl, src, consts, U):
             post.append(c)
     if loop is None:
         raise U("no list-walking for loop found")
+    # roles are found structurally, so renaming the locals is harmless:
+    #   item variable  = the variable assigned `<iterator>->data` by the first statement of the loop body
+    #   done counter   = the local tested `== 0` by the first `if` after the loop
+    #   pacing counter = the local whose truth guards a bare `break` inside the loop body
+    global COUNTERS, ITEM_VAR
+    fb = loop["inner"][4]
+    fstmts = fb.get("inner", []) if fb.get("kind") == "CompoundStmt" else [fb]
+    f0 = strip(fstmts[0]) if fstmts else {}
+    if f0.get("kind") == "BinaryOperator" and f0.get("opcode") == "=" and strip(f0["inner"][0]).get("kind") == "DeclRefExpr":
+        ITEM_VAR = strip(f0["inner"][0])["referencedDecl"]["name"]
+    done_name = pace_name = None
+    for c in post:
+        if c.get("kind") == "IfStmt":
+            c0 = strip(c["inner"][0])
+            if c0.get("kind") == "BinaryOperator" and c0.get("opcode") == "==" and const_val(c0["inner"][1]) == 0 and \
+                    strip(c0["inner"][0]).get("kind") == "DeclRefExpr":
+                done_name = strip(c0["inner"][0])["referencedDecl"]["name"]
+            break
+    for st_ in find_all(fb, "IfStmt"):
+        c0 = strip(st_["inner"][0])
+        body1 = st_["inner"][1]
+        while body1.get("kind") == "CompoundStmt" and len(body1.get("inner", [])) == 1:
+            body1 = body1["inner"][0]
+        if c0.get("kind") == "DeclRefExpr" and body1.get("kind") == "BreakStmt" and len(st_["inner"]) == 2:
+            pace_name = c0["referencedDecl"]["name"]
+            break
+    if not done_name or not pace_name or done_name == pace_name:
+        raise U("could not identify the outstanding-items counter and the pacing counter of the loop")
+    COUNTERS = {done_name: "not_done", pace_name: "need_pacing"}
     # locals: the tracked counters must be initialised to 0 before the loop
     inits = {}
     for c in pre:
@@ -363,13 +392,10 @@ def translate_tick(fdecl, src, consts, U):
                     v = const_val(d["inner"][0]) if d.get("inner") else None
                     if v is None:
                         raise U(f"counter {d['name']} has no constant initialiser")
-                    inits[d["name"]] = v
-        elif c.get("kind") == "CompoundStmt":
-            if touches(c):
-                raise U("statement before the loop touches tracked state")
-        else:
-            raise U("unexpected statement before the loop")
-    if set(inits) != COUNTERS:
+                    inits[COUNTERS[d["name"]]] = v
+        elif touches(c):
+            raise U("statement before the loop touches tracked state or leaves the function")
+    if set(inits) != set(COUNTERS.values()):
         raise U("tracked counters not all declared before the loop")
     finit, fcond, finc, fbody = loop["inner"][0], loop["inner"][2], loop["inner"][3], loop["inner"][4]
     # shape check: i = <list>; i; i = i->next
